@@ -639,7 +639,7 @@ func solveOnce(o *Obligation) *Result {
 		// solvers; they are consistent by construction, so the guard falls back to the quantifier-free part
 		nq := o.script("cover-noq", false)
 		st2, out2, secs2 := runSolver(solvers[0], nq, quick, optSeed)
-		if st2 == "timeout" || st2 == "error" {
+		if st2 != "sat" && st2 != "unsat" {
 			// a loaded machine, not a verdict: once more with the generous limit
 			st2, out2, secs2 = runSolver(solvers[0], nq, optTimeoutMs*4, optSeed)
 		}
